@@ -80,9 +80,12 @@ def fault_sites(schema, ex):
     sites = []
     n_user = [0]
 
-    def user_fault():
+    def user_fault(duck=False):
         n_user[0] += 1
-        return Fault("raise_tartiflette", {"message": "user message %d" % n_user[0], "extensions": {"code": n_user[0], "tag": "x"}})
+        payload = {"message": "user message %d" % n_user[0], "extensions": {"code": n_user[0], "tag": "x"}}
+        if duck:
+            payload["duck"] = True  # raised as a self-rendering application error that is not a TartifletteError
+        return Fault("raise_tartiflette", payload)
 
     def items(path, t, res):
         # res is a list value of list type t (nullable form)
@@ -119,6 +122,7 @@ def fault_sites(schema, ex):
         t = ty(tstr)
         sites.append(("raise", path, Fault("raise"), False))
         sites.append(("raise_tartiflette", path, user_fault(), False))
+        sites.append(("raise_coercible", path, user_fault(duck=True), False))
         sites.append(("return_exception", path, Fault("return_exception"), False))
         for lab, f in value_faults(schema, t):
             sites.append((lab, path, f, False))
